@@ -113,7 +113,7 @@ def splitObj : List (CArg α) → Option (List α × Nat × List (CArg α))
   | [] => none
   | .obj j :: r => some ([], j, r)
   | .lst xs :: r => (splitObj r).map fun (pre, j, post) => (xs ++ pre, j, post)
-  | .scalar _ :: _ => none
+  | _ :: _ => none
 
 /-- `Stream.__init__(*dargs)`: no argument → TypeError; one → `iter(arg)` or `it.repeat(arg)`;
     several → all iterable: `it.chain(*[iter(a) for a in dargs])`, none iterable: `it.cycle(dargs)`,
